@@ -294,6 +294,31 @@ class Emitter:
             child, p = p, parent(p)
         return False
 
+    def _explicit_ki_handler(self, fn: FuncInfo, node: ast.AST) -> bool:
+        """Innermost enclosing try (node in its body) names KeyboardInterrupt explicitly in a handler."""
+        from .cfg import handler_classes
+        from .loader import parent
+
+        child: ast.AST = node
+        p = parent(node)
+        while p is not None and child is not fn.node:
+            if isinstance(p, ast.Try) and any(child is s or is_within(child, s) for s in p.body):
+                for h in p.handlers:
+                    if KI in handler_classes(h):
+                        return True
+            child, p = p, parent(p)
+        return False
+
+    def _opaque_callee(self, fn: FuncInfo, c: ast.Call) -> bool:
+        """The callee is a parameter of the function or a local bound to one (user / framework supplied callable)."""
+        if not isinstance(c.func, ast.Name):
+            return False
+        node = fn.node
+        if isinstance(node, ast.Lambda):
+            return False
+        params = {a.arg for a in node.args.args + node.args.kwonlyargs + node.args.posonlyargs}
+        return c.func.id in params
+
     def with_exit_sites(self, fn: FuncInfo, expr: ast.expr) -> set[str]:
         """KI sites inside the __exit__ of a repo context manager class."""
         if not isinstance(expr, ast.Call):
@@ -374,6 +399,11 @@ class Emitter:
                         keys |= self.ki_summary(r[1])  # type: ignore[arg-type]
                 if any(self.ki_enabled(k) for k in keys) and KI not in out:
                     out.append(KI)
+                # stated belief: a try with an explicit `except KeyboardInterrupt` around a call whose callee cannot be
+                # resolved (a test function passed in, a Hypothesis runner) says that call can deliver the interrupt
+                if KI not in out and self._explicit_ki_handler(fn, c) and self.P.resolve_call(fn, c) is None and not self._is_blocking(fn, c):
+                    if self._opaque_callee(fn, c):
+                        out.append(KI)
             return out
 
         def with_exit_raises(expr: ast.expr) -> list[str]:
